@@ -78,6 +78,9 @@ pub trait AbstractTree {
     ) -> crate::Result<Option<u64>> {
         use crate::{compaction::stream::CompactionStream, merge::Merger};
 
+        #[cfg(feature = "verif_hooks")]
+        crate::verif_api::point("flush_snapshot");
+
         let version_history = self.get_version_history_lock();
         let latest = version_history.latest_version();
 
@@ -105,6 +108,9 @@ pub trait AbstractTree {
         let stream = CompactionStream::new(merger, seqno_threshold);
 
         drop(version_history);
+
+        #[cfg(feature = "verif_hooks")]
+        crate::verif_api::point("flush_write");
 
         if let Some((tables, blob_files)) = self.flush_to_tables(stream)? {
             self.register_tables(
